@@ -502,6 +502,10 @@ func (c *fctx) rangeStmt() []*S {
 				pre = append(pre, &S{K: SRaw, ID: id, Src: fmt.Sprintf("put%d := func(i, v int) { %s[i] = v }", id, coll)})
 				mut = &S{K: SRaw, Src: fmt.Sprintf("put%d(%d, %s)", id, r.Intn(3), e)}
 				c.g.mark("range_array_written_through_a_closure_declared_before_the_loop")
+			} else if r.Bool() {
+				// the only writes to the array are '++' / '--' on elements
+				mut = &S{K: SRaw, Src: fmt.Sprintf("%s[%d]++\n%s[%d]--", coll, r.Intn(3), coll, r.Intn(3))}
+				c.g.mark("range_array_written_by_element_incdec_only")
 			} else {
 				mut = &S{K: SRaw, Src: fmt.Sprintf("%s[%d] = %s", coll, r.Intn(3), e)}
 				c.g.mark("range_array_mutated_in_body")
